@@ -8,7 +8,8 @@ Case (JSON-able):
   nmodels   number of models that receive events; two more "spare" models exist for remove_model
   dyn       list of model_context lists: "dynamic" models (numbered nmodels+j), registered initially with
             that context; each is used by ONE thread only, through top-level calls
-            dyn_ev [j, name] | dyn_add [j, ctxs] | dyn_remove [j]; a dyn_ev issued while the model is not
+            dyn_ev [j, name] | dyn_add [j, ctxs, mixed] (mixed = 1 | 2: the add_model call gets a LIST in which one / two
+            already registered models precede the dynamic one) | dyn_remove [j]; a dyn_ev issued while the model is not
             registered carries 'unjudged': it is executed silently (outside the statement: no events, no
             voluntary yields) - what follows a re-registration is judged
   restored  None | 'pickle' | 'deepcopy': the machine (with its models) goes through pickle.loads(pickle.dumps()) /
@@ -308,9 +309,13 @@ class Run(object):
         if kind == 'dyn_ev':
             return getattr(self.dyn[args[0]], args[1])(tag)
         if kind == 'dyn_add':
+            # mixed list: models that are registered already come BEFORE the new one in the same add_model call
+            target = self.dyn[args[0]]
+            if len(args) > 2 and args[2]:
+                target = [self.models[0], self.spares[0], target] if args[2] == 2 else [self.models[0], target]
             if args[1]:
-                return self.machine.add_model(self.dyn[args[0]], model_context=[self.ctx(c) for c in args[1]])
-            return self.machine.add_model(self.dyn[args[0]])
+                return self.machine.add_model(target, model_context=[self.ctx(c) for c in args[1]])
+            return self.machine.add_model(target)
         if kind == 'dyn_remove':
             return self.machine.remove_model(self.dyn[args[0]])
         raise common.MachineryError('bad call kind %r' % kind)
